@@ -434,6 +434,7 @@ type Contract struct {
 	Inline   bool
 	NoVerify bool
 	Flags    []string
+	Reveal   []string
 	File     string
 	Line     int
 	Params   []string // for iface/extern: parameter names
@@ -450,6 +451,8 @@ func (c *Contract) ByKind(k string) []*Clause {
 }
 
 type PureDef struct {
+	Opaque bool
+	Bool   bool
 	Name   string
 	Params []QVar
 	Body   Expr
@@ -467,13 +470,13 @@ type SpecFile struct {
 	Ghosts    []*GhostDef
 }
 
-var clauseHead = regexp.MustCompile(`^(requires|ensures|panics|returns|modifies|assume|invariant)((?:\.[A-Za-z0-9_]+)?)((?:\[[A-Za-z0-9, ]+\])?)\s+(.*)$`)
+var clauseHead = regexp.MustCompile(`^(requires|domain|ensures|hint|panics|returns|modifies|assume|invariant)((?:\.[A-Za-z0-9_]+)?)((?:\[[A-Za-z0-9, ]+\])?)\s+(.*)$`)
 
 var keywords = map[string]bool{
 	"func": true, "iface": true, "extern": true, "pure": true, "ghost": true, "props": true,
-	"requires": true, "ensures": true, "panics": true, "returns": true, "modifies": true,
+	"requires": true, "domain": true, "ensures": true, "hint": true, "panics": true, "returns": true, "modifies": true,
 	"assume": true, "invariant": true, "let": true, "loop": true, "nopanic": true,
-	"trusted": true, "inline": true, "nonblocking": true, "unroll": true, "params": true, "noverify": true,
+	"trusted": true, "inline": true, "nonblocking": true, "reveal": true, "unroll": true, "params": true, "noverify": true,
 }
 
 func firstWord(s string) string {
@@ -567,6 +570,8 @@ func ParseSpecText(text, path, pkgPath string) (*SpecFile, error) {
 			cur.Props = append(cur.Props, strings.FieldsFunc(rest, func(r rune) bool { return r == ' ' || r == ',' })...)
 		case "nopanic":
 			cur.NoPanic = true
+		case "reveal":
+			cur.Reveal = append(cur.Reveal, strings.FieldsFunc(rest, func(r rune) bool { return r == ' ' || r == ',' })...)
 		case "nonblocking":
 			cur.Flags = append(cur.Flags, "nonblocking")
 		case "trusted":
@@ -699,6 +704,10 @@ func parsePure(s string) (*PureDef, error) {
 		return nil, fmt.Errorf("bad pure definition")
 	}
 	pd := &PureDef{Name: strings.TrimSpace(s[:i])}
+	if strings.HasPrefix(pd.Name, "opaque ") {
+		pd.Opaque = true
+		pd.Name = strings.TrimSpace(strings.TrimPrefix(pd.Name, "opaque "))
+	}
 	var pending []string
 	for _, part := range strings.Split(s[i+1:j], ",") {
 		f := strings.Fields(part)
@@ -723,6 +732,7 @@ func parsePure(s string) (*PureDef, error) {
 	if err != nil {
 		return nil, err
 	}
+	pd.Bool = strings.TrimSpace(s[j+1:k]) == "bool"
 	pd.Body = e
 	return pd, nil
 }
@@ -752,7 +762,7 @@ func collectCallKeys(e Expr, out map[string]bool) {
 	case *EQuant:
 		collectCallKeys(x.Body, out)
 	case *ECall:
-		if (x.Fn == "calls" || x.Fn == "arg" || x.Fn == "ncalls") && len(x.Args) > 0 {
+		if (x.Fn == "calls" || x.Fn == "arg" || x.Fn == "ncalls" || x.Fn == "ret") && len(x.Args) > 0 {
 			out[exprKey(x.Args[0])] = true
 		}
 		for _, a := range x.Args {
